@@ -1,4 +1,4 @@
-\* as-is: the same as a liveness violation
+\* demo (repaired in a6d06b1): the same as a liveness violation
 CONSTANTS
   Callers = {1}
   MaxCalls = 1
@@ -12,6 +12,7 @@ CONSTANTS
   T = 2
   MaxTime = 0
   EarlyCancel = FALSE
+  NoTimeouts = FALSE
   Mode = "mc"
   SymBreak = FALSE
   Dev_OpnTimeoutWedge = TRUE
